@@ -14,3 +14,4 @@ import InToto.Properties.C02
 #print axioms InToto.C02.enough_counted_links_always_suffice
 #print axioms InToto.C02.one_short_step_fails
 #print axioms InToto.C02.pipeline_is_conjunction_of_stages
+#print axioms InToto.C02.facts_thresholds_stage_position
